@@ -59,7 +59,8 @@ Inductive req :=
 | NextLine (v : via)            (* one call of nextLine *)
 | Close (name : bytes)          (* close(name) *)
 | SetArgv (i : Z) (name : bytes) (* ARGV[i] = name *)
-| SetArgc (n : Z).              (* ARGC = n *)
+| SetArgc (n : Z)               (* ARGC = n *)
+| Fflush (name : bytes).        (* fflush(name) *)
 
 Record config := mkConfig {
   noExec : bool; noFileWrites : bool; noFileReads : bool; noArgVars : bool }.
@@ -224,6 +225,15 @@ Definition builtin_close (s : state) (name : bytes) : list effect * step_out * s
   | None => ([], Continue RNeg1, s)
   end end.
 
+(* ---- vm.go BuiltinFflush, io.go flushStream / flushAll: nothing is opened ---- *)
+
+Definition builtin_fflush (s : state) (name : bytes) : list effect * step_out * state :=
+  if bytes_eqb name [] then ([], Continue RNonNeg, s)                   (* flushAll *)
+  else match lookup name (outs s) with
+       | Some _ => ([], Continue RNonNeg, s)
+       | None => ([], Continue RNeg1, s)                                (* "not an output file or pipe" *)
+       end.
+
 (* ---- io.go nextLine ----------------------------------------------------- *)
 
 Inductive nl_out := NLRecord | NLEOF | NLErr (e : err) | NLFuel.
@@ -295,6 +305,7 @@ Definition io_step (c : config) (e : env) (s : state) (r : req) : list effect * 
   | SetArgv i n => ([], Continue RNone, set_argv ((i, n) :: argv s) s)
   | SetArgc n => if maxFieldIndex <? n then ([], Stop EArgcTooLarge, s)
                  else ([], Continue RNone, set_argc n s)
+  | Fflush n => builtin_fflush s n
   end.
 
 (* ---- a whole run: requests in program order; the first Stop ends it ------- *)
